@@ -104,7 +104,7 @@ func (g *t3gen) exhaustive(stream string, lists []string, maxLen int) {
 }
 
 var idUniverse = []string{
-	"(nm 0 Ab (st int))", "(nm 0 Ac (st string))", "(nm 0 Abc (st bool))", "(nm 0 B int)", "(p (nm 0 Ab (st int)))",
+	"(nm 0 Ab (st int))", "(nm 0 Ac (st string))", "(nm 0 Abc (st bool))", "(nm 0 Bn int)", "(p (nm 0 Ab (st int)))",
 	"int", "string", "bool", "u8", "f64", "c128", "uintptr",
 	"(nm 1 Ab (st int))", "(nm 2 Ab (st int))", "(nm 1 T string)", "(nm 2 T string)",
 	"(nm 0 %C3%84b (st int))", "(nm 0 %C3%84%C3%96 (st string))", "(nm 0 x%E4%B8%96y (st bool))",
@@ -297,9 +297,9 @@ func (g *t3gen) imports(n int) {
 // T3Lines generates the op lines of the in-process tie.
 func T3Lines(r *rand.Rand, thorough bool) ([]string, T3Stats) {
 	g := &t3gen{r: r, st: T3Stats{Lines: map[string]int{}, Ops: map[string]int{}, Flags: map[string]int{}, Prefixs: map[string]int{}}}
-	k, n := 2, 1
+	k, n := 3, 1
 	if thorough {
-		k, n = 3, 10
+		k, n = 4, 10
 	}
 	g.exhaustive("tm-exh-id", idTypeLists, k)
 	g.exhaustive("tm-exh-asg", asgTypeLists, k)
